@@ -37,7 +37,7 @@ class C17(Prop):
             "absent or 0..4, subscription ids of 1..4 bytes, 0..4 tags, content of 0..4 ASCII bytes or 10 bytes, created_at "
             "at now +- limit +- {5,60} s, and in 12% of the events any int64 the implementation can represent: MinInt64, "
             "MinInt64+1, both sides of now-MaxInt64 (where an int64 difference wraps), -2^62, -2^53, now -+ 292 years +- 60 s "
-            "(time.Duration saturation), year 1, -2^31-1, -1, 0, 1, 2^31-1, 2^31, 2^32, 2^53, 2^62, MaxInt64-62135596800; all "
+            "(time.Duration saturation), year 1, -2^31-1, -1, 0, 1, 2^31-1, 2^31, 2^32, 2^53, 2^62, MaxInt64-62135596800 and beyond up to MaxInt64; all "
             "seven server message types in between; in a quarter of the cases the one middleware value serves up to three "
             "connections, two at a time, that begin and end (without tidying up) during the history, so that a later "
             "connection meets whatever an earlier one left; a case is non-trivial when at "
@@ -48,9 +48,8 @@ class C17(Prop):
     ]
     assumptions = [
         "time: the model compares whole seconds; the harness keeps created_at at least 4 s away from every moving boundary",
-        "created_at <= MaxInt64 - 62135596800 (9223371974719179007): above it time.Unix wraps its internal offset and the "
-        "implementation takes the event for one of the remote past (the lower limit rejects it, the upper limit passes it); "
-        "not claimed, not generated (corpus/C17/pending/created_at_beyond_time_unix.jsonl shows it)",
+        "created_at is any int64 (the wrap of time.Unix beyond MaxInt64 - 62135596800 was defect F12, repaired; its inputs "
+        "are in corpus/C17/created_at_beyond_time_unix.jsonl and the generator draws from that range too)",
         "created_at limits below 2^63/10^9 s (beyond that time.Duration(x)*time.Second wraps); counts in the NIP-11 "
         "document non-negative (a negative count makes the constructor panic: modelled, not claimed)",
         "the matcher of the allow/deny filter is NewReqFiltersEventLimitMatcher (model of C02); events have no empty tag",
